@@ -44,6 +44,7 @@ type FaultInstance struct {
 	FaultCase int        `json:"faultcase"`
 	Op        string     `json:"op"`
 	Held      int        `json:"held"` // files referenced by a reader during the operation
+	HeldNames []string   `json:"heldnames"`
 	Start     []string   `json:"start"` // data files on disk before the operation
 	Runs      []FaultRun `json:"runs"`
 	Hist      string     `json:"hist"`
@@ -112,7 +113,7 @@ func doOp(st *immutable.MmsTables, op string, fullSelf bool) error {
 }
 
 // one run on a fresh copy of the master directory
-func (c *caseCtx) faultRun(fc *faultCtl, master string, op string, kind string, failAt, hookAt, preHook int, hold bool,
+func (c *caseCtx) faultRun(fc *faultCtl, master string, op string, kind string, failAt, hookAt, preHook int, hold map[string]bool,
 	before map[key]string) (run FaultRun, held int, pre int) {
 	run = FaultRun{Kind: kind, At: failAt}
 	if kind != "error" && kind != "dry" {
@@ -133,10 +134,18 @@ func (c *caseCtx) faultRun(fc *faultCtl, master string, op string, kind string, 
 		return
 	}
 	var refs []immutable.TSSPFile
-	if hold {
+	if len(hold) > 0 {
+		// a reader holds references on the chosen files (all of them, or a subset) while the reorganisation runs
 		tr := util.TimeRange{Min: math.MinInt64, Max: math.MaxInt64}
 		o, u, _ := st.GetBothFilesRef(mst, false, tr, nil)
-		refs = append(append(refs, o...), u...)
+		for _, f := range append(append([]immutable.TSSPFile{}, o...), u...) {
+			n, _, ok := relName(dir, f.Path())
+			if ok && hold[n] {
+				refs = append(refs, f)
+			} else {
+				f.Unref()
+			}
+		}
 		held = len(refs)
 	}
 	stopped := false
@@ -271,12 +280,30 @@ func runFaultCase(idx int, r *gen.Rand, work string, fc *faultCtl, quick bool, e
 	}
 	before, _ := dumpStore(c.st)
 	_ = c.st.Close()
-	hold := r.Chance(1, 3)
+	// reader: none / holds every file / holds a random subset of the files
+	hold := map[string]bool{}
+	inst0, _ := diskList(c.shardDir)
+	switch r.Intn(6) {
+	case 0, 1:
+		for _, n := range inst0 {
+			hold[n] = true
+		}
+	case 2:
+		for _, n := range inst0 {
+			if r.Bool() {
+				hold[n] = true
+			}
+		}
+	}
 	inst := &FaultInstance{FaultCase: idx, Op: op}
 	inst.Start, _ = diskList(c.shardDir)
 	// dry run: how many protocol mutations, how many write-phase mutations
 	dry, held, pre := c.faultRun(fc, c.shardDir, op, "dry", -1, -1, -1, hold, before)
 	inst.Held = held
+	for n := range hold {
+		inst.HeldNames = append(inst.HeldNames, n)
+	}
+	sort.Strings(inst.HeldNames)
 	inst.Runs = append(inst.Runs, dry)
 	m := len(dry.Events)
 	pick := map[int]bool{}
